@@ -215,6 +215,11 @@ def main(argv=None):
                 print(f"  covered {k}={vv}")
         for h in sorted(set(hits)):
             print(f"KNOWN-FINDING: property={pid} {h}")
+        for k in known:
+            # a listed finding that this tier's exploration does not reach is still listed (it is a fact about the tree)
+            w_ = k.get("what", "")
+            if w_ not in hits and k.get("tier") and k.get("tier") != a.tier:
+                print(f"KNOWN-FINDING: property={pid} {w_} [reached by the {k['tier']} tier; not explored by this {a.tier} run]")
         if new:
             vdir = os.path.join(VERIF, "evidence", "violations")
             os.makedirs(vdir, exist_ok=True)
